@@ -91,6 +91,128 @@ theorem C04_given_filters (fnm : String → String → Bool) (o : C04.Opts) (pat
   · simp only [C04.Opts.excluded, h, Plumb.matchedNames]
     cases hp : Plumb.patternFilter fnm pats name <;> simp [hp, hn]
 
+/-- `_parse_field_tolerances(tolerance_strings, allow_dynamic_tolerances)` is the model's `parseTols` (FcModel/Cli.lean:
+    `classifyTok`, `makeTolerance`, `parseLoop`), for every list of `-rtol` / `-atol` strings without exotic literals
+    (negative / inf / nan: outside the hypotheses of the C04 theorems, too): absent option = empty map; a string with
+    `:` binds its field (the dict the function builds REPRESENTS the model's binding list: a later binding of the same
+    name wins), any other string sets the global default (the last one wins); `value*max` is a `ScaledTolerance` only
+    when dynamic tolerances are allowed; a string with two `:` or a literal `float()` rejects raises `ValueError`.
+    A tolerance string is presented as the sequence of its characters (`tokV`), so that `":" in s` is membership; what
+    is assumed about the string methods, `float` and the constructors: `TolExt`. -/
+theorem C04_source_parse_field_tolerances (X : Ext) (pf : String → C04.FloatLit) (hpf : ∀ s, pf s ≠ .exotic)
+    (hX : TolExt X pf) (dyn : Bool) (toks : Option (List String)) :
+    match C04.parseTols pf dyn toks with
+    | .ok m _ => ∃ kvs, Gen.cliParseFieldTolerancesSrc.run X [optTokList toks, .bool dyn] = .ok (ftmVal kvs m.dflt) ∧
+        Represents kvs m.named
+    | .raised => Gen.cliParseFieldTolerancesSrc.run X [optTokList toks, .bool dyn] = .raise "ValueError" := by
+  cases toks with
+  | none =>
+    simp only [C04.parseTols, Gen.cliParseFieldTolerancesSrc, optTokList]
+    refine ⟨[], ?_, represents_nil⟩
+    pylite_eval [hX.hempty]
+    rfl
+  | some l =>
+    simp only [C04.parseTols, parseLoop_eq_foldOpt pf hpf, Gen.cliParseFieldTolerancesSrc, optTokList]
+    pylite_eval
+    generalize hf : forLoop _ _ _ = r
+    let Inv : C04.TolMap → St → Prop := fun m st =>
+      st.env.lookup "v1" = some (.bool dyn) ∧ st.env.lookup "v3" = some (optTolVal m.dflt) ∧
+      ∃ d, st.env.lookup "v2" = some (.dict (strDict d)) ∧ Represents (strDict d) m.named
+    have key := forLoop_foldOpt_eq tokV (stepTok pf dyn) "ValueError" Inv hf C04.TolMap.empty
+      (by simp [Inv, List.lookup, C04.TolMap.empty, optTolVal]; exact ⟨[], rfl, represents_nil⟩)
+      (by
+        intro s m st ⟨e1, e3, d, e2, hrep⟩
+        clear hf
+        have hmem := memOf_colon s.toList
+        cases hc : s.toList.contains ':' with
+        | false =>
+          rw [hc] at hmem
+          have hsp := splitOnChar_no ':' s.toList hc
+          have hcl : C04.classifyTok s = .unnamed s := by simp [C04.classifyTok, hsp, String.ofList_toList]
+          obtain ⟨rest, hrs⟩ := hX.hrsplit s
+          have hfl := hX.hfloat s
+          have hfb := hX.hfloat (String.ofList ((C04.beforeFirst C04.maxSuffix s.toList).getD []))
+          have hen := hX.hends s
+          have hpf1 := hpf s
+          have hpf2 := hpf (String.ofList ((C04.beforeFirst C04.maxSuffix s.toList).getD []))
+          simp only [stepTok, hcl, C04.makeTolerance]
+          simp only [tokV, String.toList_ofList] at hrs hfl hfb hen
+          cases dyn <;> cases he : C04.endsWith s.toList C04.maxSuffix <;>
+            cases hp1 : pf s <;>
+            cases hp2 : pf (String.ofList ((C04.beforeFirst C04.maxSuffix s.toList).getD [])) <;>
+            first
+            | exact absurd hp1 hpf1
+            | exact absurd hp2 hpf2
+            | (rw [he] at hen; rw [hp1] at hfl; rw [hp2] at hfb
+               dsimp only at hfl hfb
+               simp [Inv, tokV, St.set, List.lookup, indexOf, optTolVal, tolVal, e1, e2, e3, hmem, hen, hfl, hfb, hrs,
+                 hX.hscaled]
+               try exact ⟨d, rfl, hrep⟩)
+        | true =>
+          rw [hc] at hmem
+          have hlen := splitOnChar_yes ':' s.toList hc
+          have hspl := hX.hsplit s
+          cases hp : C04.splitOnChar ':' s.toList with
+          | nil => rw [hp] at hlen; simp at hlen
+          | cons a t =>
+            cases t with
+            | nil => rw [hp] at hlen; simp at hlen
+            | cons b t2 =>
+              cases t2 with
+              | cons c t3 =>
+                have hcl : C04.classifyTok s = .malformed := by simp [C04.classifyTok, hp]
+                rw [hp] at hspl
+                simp only [tokV] at hspl
+                simp [stepTok, hcl, tokV, St.set, List.lookup, hmem, hspl, bindAll]
+              | nil =>
+                have hcl : C04.classifyTok s = .named (String.ofList a) (String.ofList b) := by
+                  simp [C04.classifyTok, hp]
+                rw [hp] at hspl
+                obtain ⟨rest, hrs⟩ := hX.hrsplit (String.ofList b)
+                have hfl := hX.hfloat (String.ofList b)
+                have hfb := hX.hfloat (String.ofList ((C04.beforeFirst C04.maxSuffix (String.ofList b).toList).getD []))
+                have hen := hX.hends (String.ofList b)
+                have hpf1 := hpf (String.ofList b)
+                have hpf2 := hpf (String.ofList ((C04.beforeFirst C04.maxSuffix (String.ofList b).toList).getD []))
+                simp only [stepTok, hcl, C04.makeTolerance]
+                simp only [tokV, String.toList_ofList] at hrs hfl hfb hen hspl hpf2 ⊢
+                cases dyn <;> cases he : C04.endsWith b C04.maxSuffix <;>
+                  cases hp1 : pf (String.ofList b) <;>
+                  cases hp2 : pf (String.ofList ((C04.beforeFirst C04.maxSuffix b).getD [])) <;>
+                  first
+                  | exact absurd hp1 hpf1
+                  | exact absurd hp2 hpf2
+                  | (rw [he] at hen; rw [hp1] at hfl; rw [hp2] at hfb
+                     dsimp only at hfl hfb
+                     simp [Inv, St.set, List.lookup, indexOf, optTolVal, tolVal, e1, e2, e3, hmem, hen, hfl, hfb, hrs,
+                       hX.hscaled, hspl, bindAll, dictSet_strDict]
+                     first
+                     | exact ⟨_, rfl, represents_cons d m.named _ (.num _) hrep⟩
+                     | exact ⟨_, rfl, represents_cons d m.named _ (.scaled _) hrep⟩
+                     | skip))
+    cases hfo : foldOpt (stepTok pf dyn) l C04.TolMap.empty with
+    | none =>
+      rw [hfo] at key
+      simp [key]
+    | some m' =>
+      rw [hfo] at key
+      obtain ⟨st', h1, e1, e3, d, e2, hrep⟩ := key
+      refine ⟨strDict d, ?_, hrep⟩
+      simp [h1, e2, e3, hX.hctor, ftmVal]
+
+/-- … and the two steps composed: asking the map that `_parse_field_tolerances` returns for a field name gives the
+    model's `TolMap.get` of `parseTols` — per-field binding if there is one (also a zero), else the global default,
+    else `None`. -/
+theorem C04_source_tolerance_lookup (X : Ext) (pf : String → C04.FloatLit) (hpf : ∀ s, pf s ≠ .exotic)
+    (hX : TolExt X pf) (dyn : Bool) (toks : Option (List String)) (m : C04.TolMap) (ex : Bool)
+    (hm : C04.parseTols pf dyn toks = .ok m ex) (name : String) :
+    ∃ obj, Gen.cliParseFieldTolerancesSrc.run X [optTokList toks, .bool dyn] = .ok obj ∧
+      Gen.cliFieldToleranceMapCallSrc.run noExt [obj, .str name] = .ok (optTolVal (m.get name)) := by
+  have h := C04_source_parse_field_tolerances X pf hpf hX dyn toks
+  rw [hm] at h
+  obtain ⟨kvs, h1, h2⟩ := h
+  exact ⟨_, h1, C04_source_field_tolerance_map_call kvs m.named m.dflt name h2⟩
+
 /-! ### option tables of `fieldcompare file` (harness/fcv/tables/cli_options.py, regenerated from the source) -/
 
 /-- every key with which `_file_mode._run` reads its argument dict is a destination that `_add_arguments` declares
